@@ -111,19 +111,28 @@ def strategy_history(ctx, rng, name, mgr_kind, default_mgr=False):
     for c in chunks:
         ops.append(cand[off:off + c])
         off += c
+    # the other arguments of query (training data, weights, fit_clf, utility_weight): one setting for the regular calls of the
+    # history, possibly different ones for the extra calls
+    # StreamProbabilisticAL(metric=...) estimates frequencies from the training data: X and y are then mandatory
+    metric = rng.choice([None, "rbf"]) if name == "StreamProbabilisticAL" else None
+    qargs = S.gen_query_args(rng, name, max(chunks), need_xy=metric is not None)
     extra = {}
     for ci in range(len(ops)):
-        calls = [(rng.choice(["before", "between"]), S.gen_candidates(rng, rng.randint(1, 4))) for _ in range(rng.choice([0, 1, 1, 2]))]
+        calls = []
+        for _ in range(rng.choice([0, 1, 1, 2])):
+            k = rng.randint(1, 4)
+            calls.append((rng.choice(["before", "between"]), S.gen_candidates(rng, k), S.gen_query_args(rng, name, k, like=qargs, need_xy=metric is not None)))
         if calls:
             extra[ci] = calls
     if not extra:
-        extra[0] = [("before", S.gen_candidates(rng, 2))]
-    make = lambda: S.make_strategy(name, mgr_kind, b, seed, ffb=ffb, default_mgr=default_mgr)
+        extra[0] = [("before", S.gen_candidates(rng, 2), S.gen_query_args(rng, name, 2, like=qargs, need_xy=metric is not None))]
+    make = lambda: S.make_strategy(name, mgr_kind, b, seed, ffb=ffb, default_mgr=default_mgr, metric=metric)
     payload = dict(strategy=name, manager=("default" if default_mgr else mgr_kind), budget=b, seed=seed, ffb=ffb,
-                   chunks=chunks, candidates=cand.tolist(),
-                   extra={str(k): [(w, x.tolist()) for w, x in v] for k, v in extra.items()})
-    outs_a, snaps_a, prob_a, _ = S.run_history(make, ops)
-    outs_b, snaps_b, prob_b, _ = S.run_history(make, ops, extra_at=extra)
+                   chunks=chunks, candidates=cand.tolist(), metric=metric, qargs=S.qa_json(qargs),
+                   extra={str(k): [(w, x.tolist(), S.qa_json(qa)) for w, x, qa in v] for k, v in extra.items()})
+    ctx.count("query_args_" + ("+".join(sorted(qargs)) or "none"))
+    outs_a, snaps_a, prob_a, _ = S.run_history(make, ops, qargs=qargs)
+    outs_b, snaps_b, prob_b, _ = S.run_history(make, ops, extra_at=extra, qargs=qargs)
     granted = sum(len(o[1]) for o in outs_a if o[0] == "q")
     ctx.case(("s", name, mgr_kind, default_mgr, seed, b, ffb, tuple(chunks)), len(ops) >= 2 and granted >= 1,
              sample=dict(strategy=name, manager=payload["manager"], budget=b, ffb=ffb, chunks=chunks, outs=[o[:2] for o in outs_a][:6]))
@@ -317,11 +326,14 @@ def replay(payload):
         for c in r["chunks"]:
             ops.append(cand[off:off + c])
             off += c
-        extra = {int(k): [(w, np.array(x, dtype=float)) for w, x in v] for k, v in r["extra"].items()}
+        extra = {int(k): [(e[0], np.array(e[1], dtype=float), S.qa_load(e[2]) if len(e) > 2 else None) for e in v]
+                 for k, v in r["extra"].items()}
         mk = None if r["manager"] == "default" else r["manager"]
-        make = lambda: S.make_strategy(r["strategy"], mk, r["budget"], r["seed"], ffb=r["ffb"], default_mgr=(mk is None))
-        oa, sa, _, _ = S.run_history(make, ops)
-        ob, sb, _, _ = S.run_history(make, ops, extra_at=extra)
+        qargs = S.qa_load(r.get("qargs"))
+        make = lambda: S.make_strategy(r["strategy"], mk, r["budget"], r["seed"], ffb=r["ffb"], default_mgr=(mk is None),
+                                       metric=r.get("metric"))
+        oa, sa, _, _ = S.run_history(make, ops, qargs=qargs)
+        ob, sb, _, _ = S.run_history(make, ops, extra_at=extra, qargs=qargs)
         bad = oa != ob or any(S.snap_diff(a, b, lazy=True) for a, b in zip(sa, sb)) or any("raised" in str(o[1]) for o in oa if o[0] != "u")
         for j in range(2, len(sa), 2):
             d = S.snap_diff(sa[j - 1], sa[j], lazy=True)
